@@ -477,3 +477,26 @@ def cycle (swr : Swr) (sc : Sched) (inp : Input) : Outcome :=
     scales := scales0 ++ [Gen.finalScaleArg scale], log := c4.log, final := c4.shards, afterGc := ss1, crashed := false }
 
 end Kvass.Coord
+
+namespace Kvass.Coord
+
+/-! ### several replicas (`runOnce`) -/
+
+/-- one replica as `runOnce` meets it: listing its shards may fail -/
+structure Replica where
+  listErr : Bool := false
+  probes : List Probe
+  scaleErr1 : Bool := false
+  deriving Repr, Inhabited
+
+/-- `runOnce` over all replicas: options, discovered set and explorer are shared, each replica is
+    coordinated from its own reports with its own schedule; a replica whose listing fails is skipped -/
+def runOnce (swr : Swr) (opt : Opt) (active : List Hash) (explore : AL St) :
+    List (Replica × Sched) → List (Option Outcome)
+  | [] => []
+  | (r, sc) :: rest =>
+    (if r.listErr then none
+     else some (cycle swr sc { opt, active, explore, probes := r.probes, scaleErr1 := r.scaleErr1 })) ::
+    runOnce swr opt active explore rest
+
+end Kvass.Coord
